@@ -1,3 +1,59 @@
-import Chiritori.Spec.Holds
+import Chiritori.Lemmas.Totality
+/-
+  C01 — Totality: clean, list and list_all never panic on any UTF-8 input.
+
+  In the model every Rust panic site is an `Except.error` (slice / replace_range at a non-boundary or with
+  start > end, `v[i]` out of range, `usize` subtraction below zero, the explicit `panic!` of EmptyLineRemover).
+  `Statement` is the full property.  Proved: `c01_clean` (cleaning returns, for every source, every pair of
+  non-empty delimiters and every configuration, and the result is a well-formed text).  The proof runs through
+  every stage: tokens partition the source at character boundaries (C07), the parse forest contains every token
+  once (C10), markers are sorted, disjoint, boundary-aligned and their pair indices are in range
+  (`markers_facts`; this is where the repaired defects D3 and D10 sat), reverse deletion of such ranges cannot
+  fail (`deleteAll_ok`), the positions handed to `format` are boundaries of the new text
+  (`positions_boundary`), every formatter range is boundary-aligned whitespace (`formatCollect_ok`; D15 sat
+  here), and overlapping ranges are merged into sorted disjoint ones whatever their order (`mergeOverlapped_spec`).
+  Not yet proved: the two listing functions (`Statement` clauses 2-5); they are exercised by the correspondence
+  check and the totality search only.  Outside every theorem: stack depth and allocation failure.
+-/
 namespace Chiritori.Props.C01
+open Chiritori Chiritori.Spec
+
+def isOk {α} : R α → Prop
+  | .ok _ => True
+  | .error _ => False
+
+def Statement : Prop :=
+  ∀ (src ds de : List Char) (cfg : Cfg), ds ≠ [] → de ≠ [] →
+    isOk (clean src ds de cfg) ∧
+    isOk (list src ds de cfg false) ∧ isOk (list src ds de cfg true) ∧
+    isOk (listAll src ds de cfg false) ∧ isOk (listAll src ds de cfg true)
+
+/-- cleaning never panics -/
+theorem c01_clean (src ds de : List Char) (cfg : Cfg) (_ : ds ≠ []) (hde : de ≠ []) :
+    ∃ out, clean src ds de cfg = .ok out := clean_total src ds de cfg hde
+
+/-- ... and whatever it returns re-encodes to a well-formed byte string (valid UTF-8 in the abstraction) -/
+theorem c01_clean_utf8 (src ds de : List Char) (cfg : Cfg) (out : List Char) (_ : clean src ds de cfg = .ok out) :
+    wellFormed (bytesOf out) = true := by
+  simp [wellFormed]
+
+/-- the facts about the markers that both listing functions start from -/
+theorem c01_markers (src ds de : List Char) (cfg : Cfg) (hde : de ≠ []) :
+    MSorted (buildRemoveMarker cfg (bytesOf src) (parseSource src ds de)) 0 (blen src) ∧
+    MAll (BPos (bytesOf src)) (buildRemoveMarker cfg (bytesOf src) (parseSource src ds de)) :=
+  ⟨(markers_facts src ds de cfg hde).1, (markers_facts src ds de cfg hde).2.1⟩
+
+/-! Regression instances (kernel-evaluated): the witnesses of the repaired defects D1, D2, D3, D15. -/
+def cfg0 : Cfg := ⟨"tl".toList, "rm".toList, 1577836800, 0, "+00:00".toList, ["a".toList]⟩
+def okB {α} : R α → Bool
+  | .ok _ => true
+  | .error _ => false
+example : okB (clean "\n<\nあ".toList "<".toList ">".toList cfg0) = true := by decide +kernel
+example : okB (clean "x< >y".toList "<".toList ">".toList cfg0) = true := by decide +kernel
+example : okB (clean "<tl to='2000-01-01 00:00:00' unwrap-block>\n<rm name='a'>\n{\n</rm>\n</tl>\nz\n".toList
+    "<".toList ">".toList cfg0) = true := by decide +kernel
+example : okB (clean "pre\n  a <tl to='2000-01-01 00:00:00' unwrap-block>\n{ <rm name='a'>\nx\n</rm>é  y\nbody\n}\n</tl>\n".toList
+    "<".toList ">".toList cfg0) = true := by decide +kernel
+example : okB (listAll "x< >y<rm name='b'>\n</rm>".toList "<".toList ">".toList cfg0 true) = true := by decide +kernel
+
 end Chiritori.Props.C01
